@@ -70,6 +70,25 @@ def check_table(res, repo):
             res.fail(rule, finding("C08", rule, ci, ci.node, f"settings would emit {bad}, which __init__ does not accept", construct=f"{ci.name}: non-init public fields {bad}"))
         else:
             res.ok(rule, {"class": ci.name, "emitted keys are init parameters": sorted(f for f, fi in fields.items() if not f.startswith('_') and f not in skip)})
+    # the emitted settings carry every configured value: fields are skipped by name or because they are None, never because they
+    # are falsy (round_value=0, count_value=0 / False, multiplier 0.0 are configuration)
+    ist = repo.indicator_base().methods.get("settings")
+    if ist is not None:
+        for lp in [n for n in ast.walk(ist.node) if isinstance(n, ast.For) and isinstance(n.target, ast.Tuple) and len(n.target.elts) == 2 and isinstance(n.target.elts[1], ast.Name)]:
+            val = lp.target.elts[1].id
+
+            def truthy_use(t):
+                if isinstance(t, ast.Name) and t.id == val:
+                    return True
+                if isinstance(t, ast.UnaryOp) and isinstance(t.op, ast.Not):
+                    return truthy_use(t.operand)
+                if isinstance(t, ast.BoolOp):
+                    return any(truthy_use(v) for v in t.values)
+                return False
+
+            for n in ast.walk(lp):
+                if isinstance(n, ast.If) and truthy_use(n.test) and len(n.body) == 1 and isinstance(n.body[0], ast.Continue):
+                    res.fail(rule, finding("C08", rule, ist, n, f"Indicator.settings skips a field because its value is falsy (`{ast.unparse(n.test)[:80]}`): configured zeros / False (round_value=0, count_value=0, smoothing 0 ...) are not emitted, so an indicator rebuilt from its own settings is configured differently"))
     am = repo.cls("hexital.indicators.amorph", "Amorph")
     ams = am.methods.get("settings")
     if ams is None:
@@ -234,5 +253,8 @@ def run(repo, tier) -> Result:
     from ..framework_rules import check_regkey, check_registry_order
 
     check_regkey("C08", res, repo)
+    from ..framework_rules import check_config_passthrough
+
+    check_config_passthrough("C08", res, repo)
     check_registry_order("C08", res, repo)
     return res
